@@ -70,4 +70,229 @@ pub mod proofs {
         draw::reached();
         contract_uuid_roundtrip(b, e);
     });
+    // ---- sampled (native PRNG driver only; never counted as proved) ----
+    #[cfg(not(kani))]
+    harness!(sampled_snap_wire_roundtrip, unwind = 1, {
+        let items = super::sampled_proofs_support::draw_items(8);
+        draw::reached();
+        super::sampled::contract_wire_roundtrip(&items);
+    });
+    #[cfg(not(kani))]
+    harness!(sampled_snap_delta_roundtrip, unwind = 1, {
+        let a = super::sampled_proofs_support::draw_items(6);
+        let b = super::sampled_proofs_support::draw_items(6);
+        let agreed = draw::bool();
+        draw::reached();
+        super::sampled::contract_delta_roundtrip(&a, &b, agreed);
+    });
+    // the builder close to the 64 KiB limit: filler items, then UUID-typed and ordinal items of drawn lengths; refused
+    // items are skipped by the caller, everything accepted must survive serialization
+    #[cfg(not(kani))]
+    harness!(sampled_snap_builder_near_limit_heavy, unwind = 1, {
+        use super::sampled::*;
+        let mut items: Vec<Item> = Vec::new();
+        let fill = 15 + draw::usize_le(1);
+        for i in 0..fill {
+            items.push((type_of(3), i as u16, vec![7; 1000 + draw::usize_le(40)]));
+        }
+        for i in 0..draw::usize_le(12) {
+            let sel = draw::usize_le(7);
+            items.push((type_of(sel), 100 + i as u16, vec![-1; draw::usize_le(400)]));
+        }
+        for i in 0..draw::usize_le(10) {
+            let sel = 4 + draw::usize_le(2);
+            items.push((type_of(sel), 200 + i as u16, vec![3; draw::usize_le(6)]));
+        }
+        draw::reached();
+        contract_wire_roundtrip(&items);
+    });
+
+}
+
+// ---- sampled contracts over the public snapshot API (C09, C10): native PRNG driver only ---------------------------
+// Kani cannot run these (BTreeMap-heavy; a 2-item harness did not finish in 25 minutes); the Verus units snap_ops /
+// snap_raw prove the per-function contracts.  These bodies state the PROPERTY-level contracts end to end and are run
+// on sampled inputs to obtain replayable counterexamples; they prove nothing.
+#[cfg(not(kani))]
+pub mod sampled {
+    use crate::format::TypeId;
+    use crate::snap::Builder;
+    use crate::snap::Delta;
+    use crate::snap::Snap;
+    use libtw2_packer::with_packer;
+    use libtw2_packer::IntUnpacker;
+    use libtw2_packer::Unpacker;
+    use uuid::Uuid;
+
+    pub type Item = (TypeId, u16, Vec<i32>);
+
+    pub fn type_of(sel: usize) -> TypeId {
+        let u = |b: u8| Uuid::from_bytes([b, 0x11, 0x22, 0x33, 0x44, 0x55, 0x66, 0x77, 0x88, 0x99, 0xaa, 0xbb, 0xcc, 0xdd, 0xee, b]);
+        match sel % 8 {
+            0 => TypeId::Ordinal(1),
+            1 => TypeId::Ordinal(2),
+            2 => TypeId::Ordinal(7),
+            3 => TypeId::Ordinal(0x3fff),
+            4 => TypeId::Uuid(u(0x01)),
+            5 => TypeId::Uuid(u(0xfe)),
+            6 => TypeId::Uuid(u(0x80)),
+            _ => TypeId::Ordinal(1),
+        }
+    }
+    /// item length is a function of the type (pre-agreed sizes; same key => same size in both snapshots).  All UUID
+    /// types share one length: two independently built snapshots may give the same raw type id to different UUIDs,
+    /// and Delta::create requires equal sizes for equal raw keys (documented precondition, see unit snap_ops).
+    pub fn len_of(sel: usize) -> usize {
+        [0, 1, 2, 3, 2, 2, 2, 0][sel % 8]
+    }
+    pub fn obj_size(agreed: bool) -> impl FnMut(u16) -> Option<u32> {
+        move |raw_type: u16| {
+            if !agreed {
+                return None;
+            }
+            match raw_type {
+                1 => Some(0),
+                2 => Some(1),
+                7 => Some(2),
+                0x3fff => Some(3),
+                _ => None,
+            }
+        }
+    }
+    /// builds through the builder, skipping refused items; returns the snapshot and the accepted items
+    pub fn build(items: &[Item]) -> (Snap, Vec<Item>) {
+        let mut b = Builder::new();
+        let mut accepted = Vec::new();
+        for (t, id, data) in items {
+            if b.add_item(*t, *id, data).is_ok() {
+                accepted.push((*t, *id, data.clone()));
+            }
+        }
+        (b.finish(), accepted)
+    }
+    pub fn view(s: &Snap) -> Vec<Item> {
+        let mut v: Vec<Item> = s.items().map(|i| (i.type_id, i.id, i.data.to_vec())).collect();
+        v.sort();
+        v
+    }
+    pub fn sorted(mut v: Vec<Item>) -> Vec<Item> {
+        v.sort();
+        v
+    }
+    pub fn same(a: &Snap, b: &Snap, universe: &[Item]) {
+        assert!(view(a) == view(b), "item sets differ");
+        assert!(a.crc() == b.crc(), "crc differs");
+        for (t, id, _) in universe {
+            assert!(a.item(*t, *id) == b.item(*t, *id), "lookup differs");
+        }
+        let mut k1 = Vec::new();
+        let mut k2 = Vec::new();
+        let mut i1 = vec![0i32; 17000];
+        let mut i2 = vec![0i32; 17000];
+        let w1 = a.write_to_ints(&mut k1, &mut i1).unwrap().to_vec();
+        let w2 = b.write_to_ints(&mut k2, &mut i2).unwrap().to_vec();
+        assert!(w1 == w2, "integer wire forms differ");
+    }
+
+    /// C10: what the builder accepted is what the snapshot holds; bytes and ints wire forms read back to the same
+    /// snapshot without warnings; recycling keeps the UUID types.
+    pub fn contract_wire_roundtrip(items: &[Item]) {
+        let (snap, accepted) = build(items);
+        assert!(view(&snap) == sorted(accepted.clone()), "snapshot differs from the accepted items");
+        for (t, id, data) in &accepted {
+            assert!(snap.item(*t, *id) == Some(&data[..]));
+        }
+        // bytes
+        let mut keys = Vec::new();
+        let mut bytes: Vec<u8> = Vec::with_capacity(5 * 17000);
+        with_packer(&mut bytes, |p| snap.write(&mut keys, p).map(|_| ())).unwrap();
+        let mut warnings: Vec<crate::format::Warning> = Vec::new();
+        let mut buf = Vec::new();
+        let mut back = Snap::empty();
+        back.read(&mut warnings, &mut buf, &bytes).expect("reading the written bytes failed");
+        assert!(warnings.is_empty(), "warnings reading bytes");
+        same(&snap, &back, items);
+        // ints
+        let mut ints = vec![0i32; 17000];
+        let n = snap.write_to_ints(&mut keys, &mut ints).unwrap().len();
+        let mut back2 = Snap::empty();
+        back2.read_from_ints(&mut warnings, &ints[..n]).expect("reading the written ints failed");
+        assert!(warnings.is_empty(), "warnings reading ints");
+        same(&snap, &back2, items);
+        // recycle: the copy still knows its UUID types and accepts the same items again
+        let mut b = back.recycle();
+        for (t, id, data) in &accepted {
+            b.add_item(*t, *id, data).expect("recycled builder refused an item that fit before");
+        }
+        let again = b.finish();
+        assert!(view(&again) == sorted(accepted));
+    }
+
+    /// C09: delta(A, B) applied to A is B (items, data, crc), also through both wire forms, without warnings; the
+    /// result is itself serializable (C10, 'the same holds for snapshots obtained by applying a delta').
+    pub fn contract_delta_roundtrip(a_items: &[Item], b_items: &[Item], agreed: bool) {
+        let (a, _) = build(a_items);
+        let (b, _) = build(b_items);
+        let mut universe = a_items.to_vec();
+        universe.extend_from_slice(b_items);
+        let mut delta = Delta::new();
+        delta.create(&a, &b);
+        let mut warnings: Vec<crate::format::Warning> = Vec::new();
+        let mut c = Snap::empty();
+        c.read_with_delta(&mut warnings, &a, &delta).expect("applying the delta failed");
+        assert!(warnings.is_empty(), "warnings applying the delta");
+        same(&b, &c, &universe);
+        // bytes wire form of the delta
+        let mut bytes: Vec<u8> = Vec::with_capacity(5 * 40000);
+        with_packer(&mut bytes, |p| delta.write(obj_size(agreed), p).map(|_| ())).unwrap();
+        let mut d2 = Delta::new();
+        let mut up = Unpacker::new(&bytes);
+        d2.read(&mut warnings, obj_size(agreed), &mut up).expect("reading the written delta failed");
+        assert!(warnings.is_empty(), "warnings reading the delta");
+        let mut c2 = Snap::empty();
+        c2.read_with_delta(&mut warnings, &a, &d2).expect("applying the re-read delta failed");
+        assert!(warnings.is_empty());
+        same(&b, &c2, &universe);
+        // ints wire form of the delta
+        let mut ints = vec![0i32; 40000];
+        let n = delta.write_to_ints(obj_size(agreed), &mut ints).unwrap().len();
+        let mut d3 = Delta::new();
+        let mut ip = IntUnpacker::new(&ints[..n]);
+        d3.read_from_ints(&mut warnings, obj_size(agreed), &mut ip).expect("reading the delta ints failed");
+        let mut c3 = Snap::empty();
+        c3.read_with_delta(&mut warnings, &a, &d3).expect("applying the int delta failed");
+        assert!(warnings.is_empty());
+        same(&b, &c3, &universe);
+        // the result of applying a delta serializes like any other snapshot
+        let mut keys = Vec::new();
+        let mut sb: Vec<u8> = Vec::with_capacity(5 * 17000);
+        with_packer(&mut sb, |p| c.write(&mut keys, p).map(|_| ())).unwrap();
+        let mut buf = Vec::new();
+        let mut back = Snap::empty();
+        back.read(&mut warnings, &mut buf, &sb).expect("re-reading the patched snapshot failed");
+        same(&b, &back, &universe);
+    }
+}
+
+#[cfg(not(kani))]
+mod sampled_proofs_support {
+    use super::draw;
+    use super::sampled::*;
+    pub fn draw_items(max: usize) -> Vec<Item> {
+        let n = draw::usize_le(max);
+        let mut v = Vec::new();
+        for _ in 0..n {
+            let sel = draw::usize_le(7);
+            let id = match draw::usize_le(5) {
+                0 => 0,
+                1 => 1,
+                2 => 2,
+                3 => 65535,
+                _ => draw::u16(),
+            };
+            let data: Vec<i32> = (0..len_of(sel)).map(|_| draw::i32()).collect();
+            v.push((type_of(sel), id, data));
+        }
+        v
+    }
 }
